@@ -43,6 +43,7 @@ type progOpts struct {
 	RegistryGrowStep    int  `json:"rgs"`
 	MinimizeStackMemory bool `json:"msm"`
 	NoContext           bool `json:"noctx"`
+	Thread              bool `json:"thread"` // run the program in a state made by NewThread, the context attached to THAT state
 }
 
 type progIn struct {
@@ -151,6 +152,10 @@ func (c *detCtx) poll() (<-chan struct{}, []func()) {
 	c.polls++
 	if c.onPoll != nil {
 		c.onPoll(c.polls)
+	}
+	if c.cancelled && (c.fault == nil || c.fault.Mode != "cancel" || c.polls < c.fault.K) {
+		c.after++ // cancelled by the host (gcancel) or the watchdog
+		return c.closed, nil
 	}
 	if c.fault != nil {
 		switch c.fault.Mode {
@@ -287,8 +292,12 @@ func runProgram(p progIn) (res progOut) {
 		budget = 2000000
 	}
 	ctx := newDetCtx(budget, p.Fault)
+	R := L // the state that runs the program
+	if p.Opts != nil && p.Opts.Thread {
+		R, _ = L.NewThread()
+	}
 	if p.Opts == nil || !p.Opts.NoContext {
-		L.SetContext(ctx)
+		R.SetContext(ctx)
 	}
 	// wall-clock safety net (loops inside coroutines are not seen by the poll budget)
 	wd := time.AfterFunc(6*time.Second, func() {
@@ -304,7 +313,7 @@ func runProgram(p progIn) (res progOut) {
 	})
 	defer wd.Stop()
 	ctx.onCancel = func() {
-		res.CancelSp = L.VerifSnapshot().Sp
+		res.CancelSp = R.VerifSnapshot().Sp
 		res.CancelEmits = len(res.Emits)
 	}
 	L.SetGlobal("emit", L.NewFunction(func(L *lua.LState) int {
@@ -353,6 +362,22 @@ func runProgram(p progIn) (res progOut) {
 		L.Call(n-1, lua.MultRet)
 		return L.GetTop() - base
 	}))
+	L.SetGlobal("gcancel", L.NewFunction(func(L *lua.LState) int {
+		// the host cancels the context while the script is running (possibly inside a coroutine)
+		ctx.mu.Lock()
+		first := !ctx.cancelled
+		ctx.fired = true
+		ctx.cancelled = true
+		cbs := ctx.fire("verif-cancel")
+		ctx.mu.Unlock()
+		if first && ctx.onCancel != nil {
+			ctx.onCancel()
+		}
+		for _, f := range cbs {
+			f()
+		}
+		return 0
+	}))
 	L.SetGlobal("gerr", L.NewFunction(func(L *lua.LState) int {
 		L.RaiseError("%s", L.CheckString(1)) // a host function failing the ordinary way
 		return 0
@@ -372,19 +397,19 @@ func runProgram(p progIn) (res progOut) {
 			res.Outcome = []interface{}{"gopanic", fmt.Sprint(r)}
 		}
 	}()
-	fn, err := L.Load(strings.NewReader(p.Src), "c")
+	fn, err := R.Load(strings.NewReader(p.Src), "c")
 	if err != nil {
 		res.Outcome = []interface{}{"loaderr", err.Error()}
 		return
 	}
-	base := L.GetTop()
+	base := R.GetTop()
 	if p.Snap {
-		res.Snaps = append(res.Snaps, snapRecord(L, -1, "go-before"))
+		res.Snaps = append(res.Snaps, snapRecord(R, -1, "go-before"))
 	}
-	L.Push(fn)
-	err = L.PCall(0, lua.MultRet, nil)
+	R.Push(fn)
+	err = R.PCall(0, lua.MultRet, nil)
 	if p.Snap {
-		res.Snaps = append(res.Snaps, snapRecord(L, -1, "go-after"))
+		res.Snaps = append(res.Snaps, snapRecord(R, -1, "go-after"))
 	}
 	if err != nil {
 		if ctx.timedOut || (ctx.fired && ctx.reason != nil && ctx.reason.Error() == "verif-budget") {
@@ -406,10 +431,10 @@ func runProgram(p progIn) (res progOut) {
 		res.Outcome = []interface{}{"err", tk.tok(lua.LString(err.Error())), "other"}
 		return
 	}
-	n := L.GetTop() - base
+	n := R.GetTop() - base
 	vs := make([]lua.LValue, n)
 	for i := 0; i < n; i++ {
-		vs[i] = L.Get(base + 1 + i)
+		vs[i] = R.Get(base + 1 + i)
 	}
 	res.Outcome = []interface{}{"ok", tk.toks(vs)}
 	return
